@@ -9,4 +9,4 @@ j=json.load(open(sys.argv[1]))
 print('label',j.get('label'),'| argv',j.get('argv'),'| env',j.get('env'),'| script',j.get('script'),'| faults',j.get('faults'),'| signals',j.get('signals'),'| model',j.get('model'), '| names_mode', j.get('names_mode'))
 PY
 VERIF_DUMP=1 /verif/build/$E replay $F 2>&1
-rm -f $F /dev/shm/verif-san.*
+rm -f $F
